@@ -17,8 +17,8 @@ Trace == ndJsonDeserialize("trace.ndjson")
 MonRev  == 1..40
 MonProc == 0..4
 
-VARIABLES l, S, B, lab, pre, sum, ended, esum
-mvars == <<l, S, B, lab, pre, sum, ended, esum>>
+VARIABLES l, S, B, lab, pre, sum, ended, esum, creators
+mvars == <<l, S, B, lab, pre, sum, ended, esum, creators>>
 
 (* ----- JSON -> abstract state ------------------------------------------- *)
 
@@ -66,6 +66,7 @@ MonInit ==
   /\ pre = [p \in MonProc |-> NoState]
   /\ sum = [p \in MonProc |-> NoSum]
   /\ ended = 0 /\ esum = NoSum
+  /\ creators = [r \in MonRev |-> {}]
 
 FaultClass(e) == IF e.kind = "store" THEN "store" ELSE IF e.kind = "wait" THEN "wait" ELSE "res"
 
@@ -78,6 +79,13 @@ MonNext ==
      /\ S' = ns
      /\ B' = IF e.ev = "reset" THEN ns ELSE S
      /\ lab' = LabOf(e)
+     \* who created which revision number while operations overlap (cleared when nothing is running)
+     /\ creators' = IF e.ev = "reset" THEN [r \in MonRev |-> {}]
+                    ELSE IF e.ev = "call" /\ e.kind = "store" /\ e.verb = "create" /\ e.ok /\ e.rev \in MonRev
+                         THEN [creators EXCEPT ![e.rev] = @ \cup {p}]
+                    ELSE IF e.ev \in {"end", "crash"} /\ \A q \in MonProc : (q # p => ~sum[q].active)
+                         THEN [r \in MonRev |-> {}]
+                    ELSE creators
      /\ CASE e.ev = "reset" ->
                /\ pre' = [q \in MonProc |-> NoState] /\ sum' = [q \in MonProc |-> NoSum]
                /\ ended' = 0 /\ esum' = NoSum
@@ -176,10 +184,13 @@ CurRev == Trace[l].rev
 P_C09_CreateFresh ==
   (IsCall /\ lab.kind = "store" /\ lab.verb = "create" /\ lab.ok) =>
      (CurRev \in MonRev /\ B.store[CurRev].st = "none" /\ S.store[CurRev].st # "none")
+\* each revision number is created by exactly one of the overlapping operations
+P_C09_UniqueCreator == \A r \in MonRev : Cardinality(creators[r]) <= 1
 P_C09_LoserClean ==
   (AtEnd /\ esum.u.kind \in {"install", "upgrade"} /\ ~esum.u.dry /\ esum.crs = {}) =>
      (~esum.ok /\ \A i \in DOMAIN esum.log :
-         ~ResWriteM(esum.log[i]) /\ ~(esum.log[i].kind = "store" /\ esum.log[i].ok /\ IsWrite(esum.log[i])))
+         ~ResWriteM(esum.log[i]) /\ \* (pruning old records under a history limit is allowed; writing or overwriting a record is not)
+         ~(esum.log[i].kind = "store" /\ esum.log[i].ok /\ esum.log[i].verb \in {"create", "update"}))
 P_C09_Quiescent == (\A p \in MonProc : ~sum[p].active) => C01_AtMostOneDeployed(S.store)
 \* (all hook objects of the release: an --atomic sub-operation runs another revision's hooks)
 P_C12_Disabled      == AtEnd => C12_Disabled(esum.log, HookIdsIn(EPre.store) \cup HookIdsIn(S.store) \cup DOMAIN DefsFor(esum, EPre, S), esum.u)
@@ -215,13 +226,14 @@ Checks == <<
   [n |-> "C12_NotInManifest", v |-> P_C12_NotInManifest],
   [n |-> "C12_Disabled",      v |-> P_C12_Disabled],
   [n |-> "C09_CreateFresh",   v |-> P_C09_CreateFresh],
+  [n |-> "C09_UniqueCreator", v |-> P_C09_UniqueCreator],
   [n |-> "C09_LoserClean",    v |-> P_C09_LoserClean],
   [n |-> "C09_Quiescent",     v |-> P_C09_Quiescent] >>
 
 \* (IF, not \/: in an action TLC would enumerate both disjuncts as separate successors)
 Report == \A i \in DOMAIN Checks : IF Checks[i].v THEN TRUE ELSE PrintT(<<"MONVIOL", l, Checks[i].n>>)
 
-MonStep == (MonNext /\ Report) \/ (l = Len(Trace) /\ l' = l + 1 /\ Report /\ UNCHANGED <<S, B, lab, pre, sum, ended, esum>>)
+MonStep == (MonNext /\ Report) \/ (l = Len(Trace) /\ l' = l + 1 /\ Report /\ UNCHANGED <<S, B, lab, pre, sum, ended, esum, creators>>)
 
 MonSpec == MonInit /\ [][MonStep]_mvars
 
